@@ -42,6 +42,12 @@ def ok_templates(tier):
     add("chunked_hex", [L("HTTP/1.1 200 OK\r\nDate: d\r\nTransfer-Encoding: chunked\r\n\r\nA\r\n"), Hh("x", 10, "byte"), L("\r\n0\r\n\r\n")], [L("HTTP/1.1")], 200,
         [("Date", [L("d")]), ("Content-Length", [L("10")])], ["x"])
     add("chunked_empty", [L("HTTP/1.1 200 OK\r\nTransfer-Encoding: chunked\r\n\r\n0\r\n\r\n")], [L("HTTP/1.1")], 200, [("Content-Length", [L("0")])], [])
+    add("empty_reason", [L("HTTP/1.1 200 \r\nServer:\r\nDate: \r\n\r\n")], [L("HTTP/1.1")], 200, [("Server", []), ("Date", [])], [])
+    add("reason_spaces", [L("HTTP/1.0 500 Internal  Server Error \r\nContent-Length: 1\r\n\r\n"), Hh("x", 1, "byte")], [L("HTTP/1.0")], 500, [("Content-Length", [L("1")])], ["x"])
+    add("value_colon", [L("HTTP/1.1 302 Found\r\nLocation: http://"), Hh("a", 2, "hval1"), L(":80/\r\n\r\n")], [L("HTTP/1.1")], 302, [("Location", [L("http://"), "a", L(":80/")])], [])
+    add("chunk_crlf_bytes", [L("HTTP/1.1 200 OK\r\nTransfer-Encoding: chunked\r\n\r\n4\r\n\r\n"), Hh("x", 1, "byte"), L("\n\r\n0\r\n\r\n")], [L("HTTP/1.1")], 200,
+        [("Content-Length", [L("4")])], [L("\r\n"), "x", L("\n")])
+    add("cl_then_more", [L("HTTP/1.1 200 OK\r\nContent-Length: 2\r\n\r\n"), Hh("x", 2, "byte"), L("HTTP/1.1 404 Not Found\r\n\r\n")], [L("HTTP/1.1")], 200, [("Content-Length", [L("2")])], ["x"])
     if tier == "thorough":
         add("chunked_3", [L("HTTP/1.1 200 OK\r\nTransfer-Encoding: chunked\r\n\r\n1\r\n"), Hh("x", 1, "byte"), L("\r\n1\r\n"), Hh("y", 1, "byte"), L("\r\n1f\r\n"), Hh("z", 31, "byte"), L("\r\n0\r\n\r\n")],
             [L("HTTP/1.1")], 200, [("Content-Length", [L("33")])], ["x", "y", "z"])
@@ -144,7 +150,7 @@ def _job(job):
                     return z3.BoolVal(False)
                 cs = [c for c in cs if c is not True]
                 return z3.And(*cs) if cs else z3.BoolVal(True)
-            consumed = len(inp)
+            consumed = len(inp) - (len("HTTP/1.1 404 Not Found\r\n\r\n") if name == "cl_then_more" else 0)
             for pc, val, locs, heap in out.rets:
                 if val[1] != "Ok":
                     if isinstance(tpl["status"], tuple):
